@@ -101,12 +101,14 @@ class Simulator:
         anyChange = True 
         
         loopcount = 0
+        # a chain of n leaves instantiated sink-first needs n passes plus a final pass without changes
+        maxloops = max(1000, len(self.propagatables) + 1)
         
         while (anyChange):
             loopcount += 1
             anyChange = False
             
-            if (loopcount > 1000):
+            if (loopcount > maxloops):
                 raise Exception('Excessive loop count in topological count')
                 
             for i in range(len(self.propagatables)):
